@@ -28,24 +28,26 @@ USES_TABLES = True
 
 THEOREMS = [
     "Pyval.table_covers",
-    "Pyval.paren_table_exact", "Pyval.paren_table_partial", "Pyval.paren_table_counterexample",
-    "Pyval.paren_table_oversound",
+    "Pyval.paren_table", "Pyval.paren_table_extra", "Pyval.paren_table_oversound",
+    "Pyval.paren_table_old_exact", "Pyval.paren_table_old_counterexample",
     "Pyval.toDoc_flatten", "Pyval.parseA_ok", "Pyval.derives_core",
     "Pyval.render_groups_partial", "Pyval.render_groups_counterexample",
     "Pyval.tuple_kept_partial", "Pyval.tuple_kept_counterexample",
-    "Pyval.str_roundtrip", "Pyval.str_roundtrip_lines",
-    "Pyval.bytes_roundtrip_partial", "Pyval.bytes_roundtrip_counterexample",
-    "Pyval.display_eq_render", "Pyval.nul_dropped_counterexample",
+    "Pyval.str_roundtrip", "Pyval.str_roundtrip_lines", "Pyval.strEscape_no_nul",
+    "Pyval.bytes_roundtrip", "Pyval.bytes_roundtrip_old_counterexample",
+    "Pyval.display_eq_render", "Pyval.display_const_full", "Pyval.nul_dropped_old_counterexample",
     "Pyval.output_marked", "Pyval.exec_spec", "Pyval.wrap_marked", "Pyval.wrap_prefix_counterexample",
 ]
 PARTIAL = {
-    "Pyval.paren_table_partial": "excludes the 36 table entries (parent = right operand of a non-** binary operator, child = binary operator of equal table precedence) where a-(b-c), a/(b*c), a-(b+c) lose their parentheses; paren_table_exact shows these are the only ones",
-    "Pyval.render_groups_partial": "okTree excludes trees containing: a non-** binary operator whose right operand is a binary operator of equal precedence; a one-element tuple (also as subscript index); an empty tuple as subscript index; an int beyond the str() digit limit; a delegated node on which astor raised",
+    "Pyval.render_groups_partial": "okTree excludes trees containing a one-element tuple (also as subscript index), an empty tuple as subscript index, or a delegated node on which astor raised ('??'); the right-operand and huge-int exclusions are gone with b6b97a7 / 61018a8",
     "Pyval.derives_core": "same exclusions as render_groups_partial (it is its induction core)",
-    "Pyval.tuple_kept_partial": "holds only for tuples of length != 1 (the colorizer never writes the trailing comma)",
-    "Pyval.bytes_roundtrip_partial": "excludes bytes values that contain ' and no \" (repr() switches to double quotes, the colorizer keeps single quotes)",
-    "Pyval.display_eq_render": "needs NUL-free item text: docutils' Text.astext drops NUL characters",
+    "Pyval.tuple_kept_partial": "holds only for tuples of length != 1 (the colorizer never writes the trailing comma; the fix is not applied because the test-suite pins '(f)')",
+    "Pyval.display_eq_render": "general lemma about result items: needs NUL-free item text; for str/bytes constants this is now a theorem (display_const_full); names, float text and astor text are NUL-free because Python source is",
     "Pyval.wrap_marked": "full for what the property says (cut => marked, complete => nothing lost); the stronger 'cut output is a prefix of the full text' is false (wrap_prefix_counterexample: the closing parenthesis of an open operator group is still written)",
+    "Pyval.paren_table_old_exact": "HISTORICAL: describes the code before b6b97a7 (decisionOld)",
+    "Pyval.paren_table_old_counterexample": "HISTORICAL: a-(b-c), a/(b*c), a-(b+c) before b6b97a7",
+    "Pyval.bytes_roundtrip_old_counterexample": "HISTORICAL: b\"it's\" before 257fc5a (bytesEscapeOld)",
+    "Pyval.nul_dropped_old_counterexample": "HISTORICAL: '\\x00' before e938da2 (strEscapeOld)",
 }
 RULE = ("exhaustive: every root form (4 unary, 13 binary, and/or with 2 and 3 operands, 10 comparison operators and "
         "chains, conditional, lambda, 7 call shapes, 6 subscript shapes, attribute, tuple/list/set/dict displays of "
